@@ -46,7 +46,7 @@ def AllSortedList : List (Bytes × Entry) → Prop
 end
 
 def isBad : Entry → Bool
-  | .dangling | .fifo | .socket | .linkDir => true
+  | .dangling | .fifo | .socket | .linkDir | .lockedDir => true
   | _ => false
 
 /-- a chain of `n` nested directories named "a" with one file at the bottom -/
